@@ -125,7 +125,7 @@ pub fn run(tier: &str, seed: u64) -> i32 {
         "position amounts {1,2,3,1000}, three durations, flows of 11000 over 4 epochs with expansions of 5000; histories bounded by the stated depth (20-epoch histories are not reached)".into(),
     ];
     formula_grid(&mut ev, tier);
-    // every root of the tier to depth 5; thorough adds depth 6 from the three short-history roots (the long-history
+    // every root of the tier to depth 5; thorough adds depth 6 with the reduced alphabet from the three short-history roots (the long-history
     // roots at depth 6 exceed the time cap: 21 M states in 1500 s without finishing the level)
     let cfg = default_cfg("C13", tier, seed, 5);
     if ev.violations.is_empty() {
@@ -134,6 +134,7 @@ pub fn run(tier: &str, seed: u64) -> i32 {
     if tier != "quick" && ev.violations.is_empty() {
         let mut deep = scenario(tier);
         deep.roots.retain(|r| r.prefix <= 2);
+        deep.reduced = true;
         let cfg = default_cfg("C13", tier, seed, 6);
         ev.add_report(explore(&deep, &cfg));
     }
